@@ -117,12 +117,16 @@ type customErr struct{ code int }
 func (e customErr) Error() string { return fmt.Sprintf("custom failure %d", e.code) }
 
 // Fail turns an outcome class into the error user code returns (or panics).
+const upstreamTB = "Traceback (most recent call last):\n  upstream frame\nValueError: relayed"
+
 func Fail(o string) error {
 	switch o {
 	case "rpcerr", "error", "errlogs":
-		return &vgirpc.RpcError{Type: "ValueError", Message: "scripted value error"}
+		// the Traceback field is filled the way a relayed upstream error has it: it may reach the
+		// wire only when debug errors are enabled
+		return &vgirpc.RpcError{Type: "ValueError", Message: "scripted value error", Traceback: upstreamTB}
 	case "rpcerrk":
-		return &vgirpc.RpcError{Type: "PermissionError", Message: "scripted permission error", Kind: "custom_kind"}
+		return &vgirpc.RpcError{Type: "PermissionError", Message: "scripted permission error", Kind: "custom_kind", Traceback: upstreamTB}
 	case "plain":
 		return errors.New("scripted plain failure")
 	case "wrapped":
